@@ -113,3 +113,40 @@ package handlers
 //@   requires handler != nil && handler.state != nil && state.InvQ(handler.state)
 //@   assert valid_before_queue at call AddBlock : [C12 C04] BlockValid(arg2)
 //@   assert valid_before_refeed at call SetBlock : [C12 C04] BlockValid(arg2)
+
+// ---------------------------------------------------------------------------------------
+// C02: before the start block is found the headers handler itself extends the stored chain.
+//
+// tipHash: hash of the header the block store holds at its tip.
+//@ spec tipHash(b) = BlockHashOf(storage.Hdr(b, b.height))
+//@ spec repoOK(b) = b != nil && storage.InvMem(b) && storage.InvFull(b) && storage.InvTop(b) && storage.InvNewest(b) && !held(b.mutex)
+
+// A header is appended to the store (pre-start phase) only on top of the store's tip.
+//@ func (HeadersHandler).checkStartHeight
+//@   serves C02
+//@   opt nomonitor = 1
+//@   requires header != nil && handler.state != nil && repoOK(handler.blocks)
+//@   requires handler.state.startHeight == -1 ==> header.PrevBlock == tipHash(handler.blocks)
+//@   assert extends_tip at call BlockRepository.Add : [C02] header.PrevBlock == tipHash(handler.blocks)
+//@   ensures appended: result1 == nil && !result0 ==> handler.blocks.height == old(handler.blocks.height) + 1 && tipHash(handler.blocks) == BlockHashOf(*header) && handler.state.lastSavedHash == BlockHashOf(*header)
+//@        && handler.state.startHeight == -1 && old(handler.state.startHeight) == -1 && repoOK(handler.blocks)
+//@   ensures start_found: result0 ==> handler.state.startHeight != -1 && storage.memSame(handler.blocks) && stsame()
+//@   ensures failed_unchanged: result1 != nil ==> storage.memSame(handler.blocks) && stsame()
+//@   ensures keeps_repo: repoOK(handler.blocks) && *header == old(*header)
+
+// While the start block has not been found no block is requested and the state's last hash is the
+// store's tip; the headers handler keeps it so, and every header it appends links to the tip.
+//@ spec hdrSync(h) = h.state.startHeight == -1 ==> len(h.state.blocksToRequest) == 0 && len(h.state.blocksRequested) == 0 && h.state.lastSavedHash == tipHash(h.blocks)
+//@ spec hbase(h) = h != nil && same(h.state, h.blocks, h.txs, h.reorgs) && h.state != nil && h.txs != nil && h.reorgs != nil && repoOK(h.blocks) && state.InvQ(h.state)
+
+//@ func (*HeadersHandler).Handle
+//@   serves C02
+//@   opt nomonitor = 1
+//@   opt partial = 1
+
+//@   requires hbase(handler) && hdrSync(handler)
+//@   requires typeis(m, *wire.MsgHeaders) ==> forall(k, 0, len(as(m, *wire.MsgHeaders).Headers), as(m, *wire.MsgHeaders).Headers[k] != nil)
+//@   ensures keeps_sync: [C02] result1 == nil ==> hdrSync(handler)
+//@   loop 0 invariant hbase(handler) && (handler.state.startHeight == -1 ==> len(handler.state.blocksToRequest) == 0 && len(handler.state.blocksRequested) == 0 && lastHash == tipHash(handler.blocks) && handler.state.lastSavedHash == lastHash)
+//@   loop 1 invariant hbase(handler)
+//@   loop 2 invariant hbase(handler)
